@@ -411,7 +411,7 @@ def held_bytes(pre):
     from kfac.distributed import Future
 
     tot = {'factors': 0, 'second_order': 0, 'batch': 0, 'a_batch': 0,
-           'g_batch': 0}
+           'g_batch': 0, 'other': 0, 'other_names': []}
     per_layer = {}
     for mod, (name, layer) in pre._layers.items():
         so = 0
@@ -430,6 +430,10 @@ def held_bytes(pre):
             elif kk in SO_ATTRS:
                 tot['second_order'] += b
                 so += b
+            else:
+                # any further tensor the layer object keeps alive
+                tot['other'] += b
+                tot['other_names'].append(f'{name}.{k}')
         per_layer[name] = so
     tot['per_layer_second_order'] = per_layer
     return tot
